@@ -49,6 +49,7 @@ def build_flux(rng, kind, enc, spt, tracks, images, res, tight=None):
     jitter = rng.random() < 0.5 or bool(tight)
     oplog_total = 0
     trailing_skip = kind == 'hfe3' and rng.random() < 0.5
+    stale_ids = rng.random() < 0.3 and not params.tight
     for sd, img in enumerate(images):
         trs = []
         for t in range(tracks):
@@ -56,9 +57,17 @@ def build_flux(rng, kind, enc, spt, tracks, images, res, tight=None):
             fn = flux.fm_track if enc == 'fm' else flux.mfm_track
             # per-track length jitter goes into the leading gap so that the
             # last sector may still end right at the end of the track
+            orph = None
+            if stale_ids and rng.random() < 0.4:
+                # stale sector IDs (good CRC, no data record behind them) left between the records of the
+                # track: a controller that meets one finds no data mark in its window and goes on to the next ID
+                orph = {}
+                for rr in rng.sample(range(spt), rng.choice([1, 1, 2])):
+                    orph[rr] = rng.choice([rr, rng.randrange(spt), spt + rng.randrange(8), 0])
+                res.seen('stale_sector_ids', '%s:%d-per-track' % (enc, len(orph)))
             tr = fn(t, sd, secs, order=params.order(rng, spt, t), gap1=params.gap1 + ((t * 37) % 90 if jitter else 0),
                     gap3=params.gap3, sync=params.sync, gap2=params.gap2, index_mark=params.index_mark,
-                    gap4_min=params.gap4)
+                    gap4_min=params.gap4, orphans=orph)
             trs.append(tr)
         per_side.append(trs)
     desc = params.describe()
